@@ -56,8 +56,13 @@ def _describe_bytes(server, md=None):
 def run(ctx: Ctx) -> None:
     warnings.filterwarnings("ignore")
     quick = ctx.quick
-    types = ["int", "str", "dc"] if quick else ["int", "i32", "str", "float", "bool", "bytes", "list_int", "dc"]
-    consts = {"Types": S(types)}
+    if quick:
+        types, types2, rets = ["int", "dc", "enum", "fset"], ["int", "dc"], ["int", "enum"]
+    else:
+        types = ["int", "i32", "str", "float", "bool", "bytes", "list_int", "dc", "enum", "dict", "fset", "list_dc", "list_opt",
+                 "newtype", "dc0", "ann_int", "batch"]
+        types2, rets = ["int", "str", "dc", "enum"], ["int", "i32", "str", "bytes", "list_int", "enum", "batch"]
+    consts = {"Types": S(types), "Types2": S(types2), "RetTypes": S(rets)}
     invs = ["RelevantChangesPayload", "IrrelevantKeepsPayload", "EitherKeepsPayload", "EditChangesSomething", "EditedWellFormed"]
     cases = enumerate_families(ctx, "data", "Describe", ["\\E d \\in BaseDefs : c \\in CasesOf(d)"], constants=consts,
                                invariants=invs, name="Describe:enumerate")
@@ -71,6 +76,8 @@ def run(ctx: Ctx) -> None:
                "HTTP legs use the in-process falcon test client")
 
     from vgi_rpc.http import http_introspect
+    from vgi_rpc.introspect import introspect
+    from vgi_rpc.rpc import make_pipe_pair
     from vgi_rpc.http._testing import make_sync_client
 
     # ---- cross-process hashes: one child interpreter builds every definition that has a "process" edit
@@ -92,13 +99,13 @@ def run(ctx: Ctx) -> None:
 
     seen: dict[str, dict] = {}
 
-    def facts(d: dict, sid: str = "srv-a", impl: int = 0, cache: bool = True) -> dict:
+    def facts(d: dict, sid: str = "srv-a", impl: int = 0, cache: bool = True, sv: str = "") -> dict:
         """Everything observed about one definition (memoised: definitions recur across edits)."""
-        key = json.dumps([d, sid, impl], sort_keys=True)
+        key = json.dumps([d, sid, impl, sv], sort_keys=True)
         if cache and key in seen:
             return seen[key]
         try:
-            srv = dd.build(d, sid, impl, cache=cache)
+            srv = dd.build(d, sid, impl, cache=cache, server_version=sv)
         except Exception as e:  # noqa: BLE001 -- a well-formed definition the library refuses to serve
             r = {"error": f"{type(e).__name__}: {e}"}
             seen[key] = r
@@ -132,6 +139,8 @@ def run(ctx: Ctx) -> None:
             f2 = facts(c["d"], sid="a-completely-different-server-id")
         elif e == "impl_swap":
             f2 = facts(c["d"], impl=1)
+        elif e == "server_version":
+            f2 = facts(c["d"], sv="9.9.9+build.77")
         elif e == "rebuild":
             f2 = facts(c["d"], cache=False)                  # same source, fresh classes, same interpreter
         elif e == "process":
@@ -159,14 +168,38 @@ def run(ctx: Ctx) -> None:
                 client = make_sync_client(f2["srv"], token_key=b"k" * 32)
                 try:
                     sd = http_introspect(client=client)
+                    # ... and __describe__ over HTTP under a mismatching / absent client protocol version
+                    http_ok = True
+                    if dd.VERSION[exp["d2"]["version"]] is not None:
+                        for mdv in ({world.K_PROTOVER: b"9.9.9"}, {}):
+                            r = client.post("/__describe__", content=world.raw_request(b"__describe__", pa.schema([]), {}, md=mdv),
+                                            headers={"Content-Type": world.ARROW_CT})
+                            st = world.read_streams(r.content) if r.status_code == 200 else []
+                            http_ok = http_ok and bool(st and st[0]["batches"] and world.error_of(st[0]) is None)
                 finally:
                     client.close()
                 oh = dict(o)
                 oh["p2"] = dd.abstract_payload(sd)
                 oh["hash_equal"] = f1["hash"] == sd.protocol_hash
                 oh["md_hash_ok"] = sd.protocol_hash == f2["hash"]
+                oh["mismatch_ok"] = bool(o["mismatch_ok"] and http_ok)
                 ctx.case([c["d"], c["ed"], "http"])
                 obs.append({"case": c, "obs": oh, "_via": "http"})
+                # the public pipe client: introspect(transport) against serve_one on a pipe pair
+                ct, st_ = make_pipe_pair()
+                th = world.run_thread(f2["srv"].serve_one, st_, name="c39-pipe")
+                try:
+                    sdp = introspect(ct)
+                finally:
+                    th.join(5)
+                    ct.close()
+                    st_.close()
+                op = dict(o)
+                op["p2"] = dd.abstract_payload(sdp)
+                op["hash_equal"] = f1["hash"] == sdp.protocol_hash
+                op["md_hash_ok"] = sdp.protocol_hash == f2["hash"]
+                ctx.case([c["d"], c["ed"], "pipe"])
+                obs.append({"case": c, "obs": op, "_via": "pipe"})
             except Exception as ex:  # noqa: BLE001
                 ctx.violation("DescribeFaithful", {"edit": e, "class": "http-introspect-failed"}, {"case": c, "exc": repr(ex)})
     ctx.extra["either_edits_hash_equal_vs_different"] = either
